@@ -18,8 +18,9 @@ import (
 )
 
 type scen struct {
-	w   *world
-	run *vh.Run
+	w    *world
+	run  *vh.Run
+	dead bool // a step that has to succeed did not: the rest of the scenario is skipped (the failure itself is reported by runCase's oracle or shows as a trace difference)
 }
 
 func (s *scen) gov(who int, rcpt, payload string, amt *big.Int, commit bool) (string, string) {
@@ -27,13 +28,26 @@ func (s *scen) gov(who int, rcpt, payload string, amt *big.Int, commit bool) (st
 }
 
 func (s *scen) must(who int, rcpt, payload string, amt *big.Int) {
-	a, e := s.gov(who, rcpt, payload, amt, true)
-	if a != "ok" || e != "done" {
-		panic(fmt.Sprintf("scenario step failed: signer %d %s %s: %s %s", who, rcpt, payload, a, e))
+	if s.dead {
+		return
 	}
+	for try := 0; try < 20; try++ {
+		a, e := s.gov(who, rcpt, payload, amt, true)
+		if a == "ok" && e == "done" {
+			return
+		}
+		if !strings.HasPrefix(e, "panic") {
+			break // (a panic that depends on the map iteration order may not repeat: try again)
+		}
+	}
+	s.dead = true
+	s.run.Count("scenario-step-failed")
 }
 
 func (s *scen) attempt(who int, rcpt, payload string, amt *big.Int) {
+	if s.dead {
+		return
+	}
 	a, e := s.gov(who, rcpt, payload, amt, true)
 	s.run.Count("scenario-attempt:" + a + "/" + e)
 }
@@ -43,6 +57,9 @@ func (s *scen) day() { s.w.blockNo += system.VotingDelay + 10; s.w.mp = nil }
 // probe: every transaction type in the current state: the valid governance calls and their argument mutations
 // (a sample), and the other types with the fee on.
 func (s *scen) probe(label string, contractAddr []byte, senders []int) {
+	if s.dead {
+		return
+	}
 	w := s.w
 	g := &gen{w: w, rng: s.run.Rng}
 	g.structured(false)
@@ -84,7 +101,8 @@ func daoScenarios(run *vh.Run, dir string, thorough bool) {
 	// a contract (stub VM: the payload is its code and its script)
 	da, de := w.runCase(&txCase{who: 0, payload: []byte(`{"ret":"deployed"}`), typ: types.TxType_DEPLOY, label: "scenario"}, true)
 	if da != "ok" || de != "done" {
-		panic("deploy failed: " + da + " " + de)
+		s.dead = true
+		run.Count("scenario-step-failed:deploy")
 	}
 	contractAddr := contract.CreateContractID(w.addrs[0], w.lastNonce(0))
 	run.Count("scenario-contract-deployed")
@@ -98,8 +116,9 @@ func daoScenarios(run *vh.Run, dir string, thorough bool) {
 	// STAKINGMIN down to 1 aer: the 5000-aer account can stake; its parameter vote has a tally below 100 aer
 	// (regression of f9db0000: VoteResult.threshold divided by power/100 = 0)
 	vote("STAKINGMIN", "1")
-	if system.GetStakingMinimum().Cmp(big.NewInt(1)) != 0 {
-		panic("STAKINGMIN vote did not come into force: " + system.GetStakingMinimum().String())
+	if !s.dead && system.GetStakingMinimum().Cmp(big.NewInt(1)) != 0 {
+		s.dead = true
+		run.Count("scenario-step-failed:STAKINGMIN-not-in-force")
 	}
 	s.must(4, sys, `{"Name":"v1stake"}`, big.NewInt(50))
 	s.day()
@@ -118,6 +137,7 @@ func daoScenarios(run *vh.Run, dir string, thorough bool) {
 	s.attempt(0, sys, `{"Name":"v1voteDAO","Args":["GASPRICE","0"]}`, nil)
 	s.attempt(0, sys, `{"Name":"v1voteDAO","Args":["GASPRICE","-0"]}`, nil)
 	s.attempt(0, sys, `{"Name":"v1voteDAO","Args":["GASPRICE","-`+maxAER+`1"]}`, nil)
+	s.probe("dao-gasprice-after-refused-votes", contractAddr, []int{0}) // (a zero price would make every paid transaction divide by zero)
 	vote("GASPRICE", "50000000000")
 
 	// NAMEPRICE and STAKINGMIN at their extremes
@@ -161,18 +181,18 @@ func daoScenarios(run *vh.Run, dir string, thorough bool) {
 		sl.must(2, sys, `{"Name":"v1stake"}`, coins(10000))
 		sl.day()
 		sl.must(0, sys, `{"Name":"v1voteDAO","Args":["BPCOUNT","`+first+`"]}`, nil)
-		for i := 0; i < run.Pick(60, 300); i++ {
+		for i := 0; i < run.Pick(60, 300) && !sl.dead; i++ {
 			sl.gov(1, sys, `{"Name":"v1voteDAO","Args":["BPCOUNT","`+second+`"]}`, nil, false)
 		}
 		sl.must(1, sys, `{"Name":"v1voteDAO","Args":["BPCOUNT","`+second+`"]}`, nil)
 		// a third voter with the same stake and another short value: three tied entries
-		for i := 0; i < run.Pick(60, 300); i++ {
+		for i := 0; i < run.Pick(60, 300) && !sl.dead; i++ {
 			sl.gov(2, sys, `{"Name":"v1voteDAO","Args":["BPCOUNT","4"]}`, nil, false)
 		}
 		sl.must(2, sys, `{"Name":"v1voteDAO","Args":["BPCOUNT","4"]}`, nil)
 		sl.day()
 		// revotes and an unstake walk over the stored (sorted) tally again
-		for i := 0; i < run.Pick(30, 150); i++ {
+		for i := 0; i < run.Pick(30, 150) && !sl.dead; i++ {
 			sl.gov(0, sys, `{"Name":"v1voteDAO","Args":["BPCOUNT","2"]}`, nil, false)
 			sl.gov(1, sys, `{"Name":"v1unstake"}`, coins(10000), false)
 		}
